@@ -16,7 +16,11 @@ C04 — Reported error locations point at the offending construct.
                 statement, or the position of the first ``@`` of a decorated definition;
             (3) pipeline: every ``At line L and column C`` written by ``smoke.execute`` for the
                 recorded rejected meta-models and layout variants of them is the start of a token
-                of line ``L`` (or column 1) and moves exactly with the inserted lines.
+                of line ``L`` (or column 1) and moves exactly with the inserted lines;
+            (4) whole reports (error TREES rendered by ``error_message`` directly, by
+                ``run.load_model`` and by ``smoke.execute``): every ``At line L and column C``
+                prefix belongs to an error that HAS a node and names that node's position; an
+                error without a node carries no location prefix (``judge_report``).
 """
 from __future__ import annotations
 
@@ -427,10 +431,307 @@ def judge_pipeline(ctx: Ctx, case_id: str, base: str, variant: Tuple[str, str, b
     return bad
 
 
+# --------------------------------------------------------------------------- oracle (4): whole reports
+
+# One error of a report in depth-first pre-order (= the order of rendering):
+# (depth, allowed locations or None for an error WITHOUT a node, message)
+Flat = Tuple[int, Optional[Set[Tuple[int, int]]], str]
+
+_LINE_BREAKS = "\n\r\v\f\x1c\x1d\x1e\x85\u2028\u2029"
+
+
+def first_line(msg: str) -> str:
+    for k, ch in enumerate(msg):
+        if ch in _LINE_BREAKS:
+            return msg[:k]
+    return msg
+
+
+def single_line(msg: str) -> bool:
+    return first_line(msg) == msg and msg.strip() != ""
+
+
+def judge_report(out: str, errs: Sequence[Flat], attribute: bool) -> List[Tuple[str, str]]:
+    """
+    The statement of the property on a whole report, independent of the Lean model.
+
+    ``errs`` are the errors in the order they are rendered.  (a) ``attribute``: every error is found
+    in the report (first line of its message, searched from the end of the previous one); what
+    stands between the start of that line and the message must be indentation only for an error
+    without a node, and indentation + the prefix naming one of the allowed positions for an error
+    with a node.  (b) always: the SEQUENCE of all ``At line L and column C: `` in the report is the
+    sequence of the located errors (plus what the messages themselves contain) — no prefix without
+    a node, none missing, none moved to another error.
+    """
+    if attribute:
+        cursor = 0
+        for k, (depth, allowed, msg) in enumerate(errs):
+            m0 = first_line(msg)
+            rx = re.compile(r"^[ ]*(?:\* )?[ ]*(At line (-?\d+) and column (-?\d+): )?" + re.escape(m0), re.M)
+            m = rx.search(out, cursor)
+            if m is None:
+                return [("C04:report:message-not-found", f"error #{k} ({m0[:40]!r}) is not rendered at the start of a line after error #{k - 1}")]
+            cursor = m.end()
+            if allowed is None:
+                if m.group(1) is not None:
+                    return [("C04:report:unlocated-error-has-prefix",
+                             f"error #{k} at depth {depth} has NO node but is rendered as {m.group(0).strip()[:80]!r}: the prefix belongs to another error")]
+                continue
+            if m.group(1) is None:
+                return [("C04:report:located-error-without-prefix",
+                         f"error #{k} at depth {depth} has a node at {sorted(allowed)[:3]} but is rendered without a location: {m.group(0).strip()[:80]!r}")]
+            got = (int(m.group(2)), int(m.group(3)))
+            if got not in allowed:
+                if got[0] > 1 and (got[0], got[1] - 1) in allowed:
+                    return [("C04:column-shift-after-first-line", f"error #{k}: reported at {got}, its node is at {sorted(allowed)[:3]}")]
+                return [("C04:report:prefix-names-other-position",
+                         f"error #{k} at depth {depth} ({m0[:40]!r}) is reported at {got}, its node is at {sorted(allowed)[:3]}")]
+    want: List[Set[Tuple[int, int]]] = []
+    for _, allowed, msg in errs:
+        if allowed is not None:
+            want.append(allowed)
+        for a, b in LOC_RE.findall(msg):
+            want.append({(int(a), int(b))})
+    got_all = [(int(a), int(b)) for a, b in LOC_RE.findall(out)]
+    if len(got_all) > len(want):
+        return [("C04:report:more-prefixes-than-located-errors", f"{len(got_all)} location prefixes for {len(want)} located errors: {got_all[:8]}")]
+    if len(got_all) < len(want):
+        return [("C04:report:fewer-prefixes-than-located-errors", f"{len(got_all)} location prefixes for {len(want)} located errors: {got_all[:8]}")]
+    for k, (g, w) in enumerate(zip(got_all, want)):
+        if g not in w:
+            return [("C04:report:prefix-sequence", f"the {k}-th location of the report is {g}, the {k}-th located error is at {sorted(w)[:3]}")]
+    return []
+
+
+def flatten_tree(text: str, tr: Tree, depth: int = 0) -> List[Flat]:
+    """Stub trees: a node IS its start offset; the expected position is `spec_pos`."""
+    start, msg, und = tr
+    out: List[Flat] = [(depth, None if start is None else {spec_pos(text, start)}, msg)]
+    for u in und or []:
+        out += flatten_tree(text, u, depth + 1)
+    return out
+
+
+def node_locations(src: str, lines: Sequence[str], tree: ast.AST, node: Any) -> Set[Tuple[int, int]]:
+    """Allowed positions of a REAL node, from `ast` alone (the module: its top, or its first statement)."""
+    if hasattr(node, "lineno") and hasattr(node, "col_offset"):
+        return allowed_locations(src, lines, node)
+    out = {(1, 1)}
+    body = getattr(tree, "body", [])
+    if body:
+        out |= allowed_locations(src, lines, body[0])
+        out.add((body[0].lineno, 1))
+    return out
+
+
+def flatten_error(src: str, lines: Sequence[str], tree: ast.AST, e: Any, depth: int = 0) -> List[Flat]:
+    out: List[Flat] = [(depth, None if e.node is None else node_locations(src, lines, tree, e.node), str(e.message))]
+    for u in e.underlying or []:
+        out += flatten_error(src, lines, tree, u, depth + 1)
+    return out
+
+
+def error_wire_tree(atok: Any, src: str, e: Any) -> Tree:
+    return (None if e.node is None else start_of(atok, src, e.node), str(e.message), None if e.underlying is None else [error_wire_tree(atok, src, u) for u in e.underlying])
+
+
+# ---- enumerated error trees: every shape up to depth 3 and width 3, every node with / without a node
+
+ENUM_TEXT = "ab\ncd\n\néf\ngh\n"
+_ENUM_OFFSETS = [0, 4, 8, 1, 11, 3, 7, 12, 5, 9, 2, 10, 6]  # 13 = the most nodes of such a tree; all different positions
+
+
+def _label(shape: Any, flags: Iterator[bool], counter: List[int]) -> Tree:
+    k = counter[0]
+    counter[0] += 1
+    located = next(flags)
+    kids = [_label(c, flags, counter) for c in shape]
+    return (_ENUM_OFFSETS[k % len(_ENUM_OFFSETS)] if located else None, f"e{k}", (kids if kids else (None if k % 2 else [])))
+
+
+def _shapes(depth: int, width: int) -> List[Any]:
+    """Unlabelled trees as nested tuples: at most `depth` levels, at most `width` children per node."""
+    if depth <= 1:
+        return [()]
+    sub = _shapes(depth - 1, width)
+    out: List[Any] = []
+    for k in range(width + 1):
+        out += list(itertools.product(sub, repeat=k))
+    return out
+
+
+def _size(shape: Any) -> int:
+    return 1 + sum(_size(c) for c in shape)
+
+
+def enumerated_trees(depth: int, width: int) -> Iterator[Tree]:
+    for shape in _shapes(depth, width):
+        n = _size(shape)
+        for flags in itertools.product([False, True], repeat=n):
+            yield _label(shape, iter(flags), [0])
+
+
+# ---- composed meta-models: located and un-located errors in one report
+
+_GOOD_CLASS = '''class Item:
+    """Represent an item."""
+
+    name: str
+
+    def __init__(self, name: str) -> None:
+        self.name = name
+'''
+
+#: located errors of `parse.atok_to_symbol_table`, as module-level statements
+_PARSE_LOCATED: Dict[str, str] = {
+    "enum-literal": "class Some_enum(Enum):\n    some_literal = 3\n",
+    "stray-assignment": "x = 1\n",
+    "for-statement": "for i in []:\n    pass\n",
+    "property-without-type": 'class Other:\n    """Represent é."""\n\n    size = 3\n',
+}
+#: errors of the parse stage WITHOUT a node (duplicate names: with located underlying errors; the slash: a located
+#: error AND the un-located "namespace is missing")
+_PARSE_UNLOCATED = ["no-version", "no-namespace", "duplicate-names", "namespace-with-slash"]
+
+#: the intermediate stage: located (class, verification function) and un-located (meta-data, with a located underlying error)
+_INTER_PIECES: Dict[str, str] = {
+    "class-docstring": 'class Other:\n    """Represent :class:`Unknown`."""\n',
+    "verification-pattern": '@verification\ndef is_x(text: str) -> bool:\n    """\n    Check é.\n\n    :param text: to be checked\n    :returns: True if fine\n    """\n    return match("^[a", text) is not None\n',
+    "verification-docstring": '@verification\ndef is_y(text: str) -> bool:\n    """\n    Check :class:`Unknown_too`.\n\n    :param text: to be checked\n    :returns: True if fine\n    """\n    return match("^a$", text) is not None\n',
+}
+_BAD_MODULE_DOC = '"""\nProvide ü.\n\n:param x: not allowed here\n"""\n'
+
+
+def composed_models() -> List[Tuple[str, str]]:
+    """(id, source) — seed independent; every subset of the located x every subset of the un-located defects, two source orders."""
+    out: List[Tuple[str, str]] = []
+    located = sorted(_PARSE_LOCATED)
+    for lk in range(len(located) + 1):
+        for ls in itertools.combinations(located, lk):
+            for uk in range(len(_PARSE_UNLOCATED) + 1):
+                for us in itertools.combinations(_PARSE_UNLOCATED, uk):
+                    if not ls and not us:
+                        continue
+                    for order in ("located-first", "class-first"):
+                        if order == "class-first" and not ls:
+                            continue
+                        pieces = [_PARSE_LOCATED[k] for k in ls]
+                        good = [_GOOD_CLASS] + ([_GOOD_CLASS] if "duplicate-names" in us else [])
+                        body = pieces + good if order == "located-first" else good[:1] + pieces + good[1:]
+                        tail = []
+                        if "no-version" not in us:
+                            tail.append('__version__ = "dummy"\n')
+                        if "namespace-with-slash" in us and "no-namespace" not in us:
+                            tail.append('__xml_namespace__ = "https://dummy.com/"\n')
+                        elif "no-namespace" not in us:
+                            tail.append('__xml_namespace__ = "https://dummy.com"\n')
+                        # the assignments in front now and then: the un-located errors still come last in the report
+                        if len(ls) % 2 == 0:
+                            src = "\n\n".join(body) + "\n" + "".join(tail)
+                        else:
+                            src = "".join(tail) + "\n" + "\n\n".join(body)
+                        out.append((f"parse|{'+'.join(ls) or '-'}|{'+'.join(us) or '-'}|{order}", src))
+    inter = sorted(_INTER_PIECES)
+    for k in range(len(inter) + 1):
+        for ps in itertools.combinations(inter, k):
+            for bad_doc in (False, True):
+                if not ps and not bad_doc:
+                    continue
+                for front in ("", "# a comment é\n\n"):
+                    for order in ("functions-first", "functions-last"):
+                        fns = [_INTER_PIECES[p] for p in ps if p.startswith("verification")]
+                        cls = [_INTER_PIECES[p] for p in ps if not p.startswith("verification")] + [_GOOD_CLASS]
+                        if order == "functions-last" and not fns:
+                            continue
+                        body = fns + cls if order == "functions-first" else cls + fns
+                        doc = _BAD_MODULE_DOC if bad_doc else '"""Provide a meta-model."""\n'
+                        src = front + doc + "\n" + "\n\n".join(body) + '\n\n__version__ = "dummy"\n__xml_namespace__ = "https://dummy.com"\n'
+                        out.append((f"intermediate|{'+'.join(ps) or '-'}|{'bad-module-doc' if bad_doc else '-'}|{order}|{'comment-first' if front else 'plain'}", src))
+    return out
+
+
+def report_of_stages(src: str) -> Tuple[Optional[Any], Optional[Any], str]:
+    """(atok, the Error tree of the first failing stage or None, stage) — the steps of `run.load_model`, in-process."""
+    from aas_core_codegen import intermediate, parse
+
+    atok, exc = parse.source_to_atok(source=src)
+    if exc is not None or atok is None:
+        return None, None, "syntax"
+    if parse.check_expected_imports(atok=atok):
+        return atok, None, "imports"
+    table, error = parse.atok_to_symbol_table(atok=atok)
+    if error is not None:
+        return atok, error, "parse"
+    _, error = intermediate.translate(parsed_symbol_table=table, atok=atok)
+    if error is not None:
+        return atok, error, "intermediate"
+    return atok, None, "accepted"
+
+
+def count_errors(e: Any) -> Tuple[int, int]:
+    a, b = (1, 0) if e.node is not None else (0, 1)
+    for u in e.underlying or []:
+        x, y = count_errors(u)
+        a, b = a + x, b + y
+    return a, b
+
+
+def judge_composed(ctx: Ctx, case_id: str, src: str, with_smoke: bool) -> Tuple[List[Tuple[str, str]], Optional[Tuple[str, Tree, str]]]:
+    """Oracle (4) on one composed meta-model: `error_message` directly, `run.load_model`, (`smoke.execute`)."""
+    from aas_core_codegen import run
+    from aas_core_codegen.common import LinenoColumner
+
+    try:
+        atok, error, stage = report_of_stages(src)
+    except BaseException as e:  # noqa
+        return [(f"C04:composed:{crash_name(e)}", f"{case_id}: the front end raised {crash_name(e)}")], None
+    ctx.hit("composed:stage:" + stage)
+    if error is None or atok is None:
+        return [], None
+    located, unlocated = count_errors(error)
+    ctx.hit("composed:located-errors", located)
+    ctx.hit("composed:unlocated-errors", unlocated)
+    if located and unlocated:
+        ctx.hit("composed:mixed-report")
+    lines = src.split("\n")
+    flat = flatten_error(src, lines, atok.tree, error)
+    for (_, a, _), (_, b, _) in zip(flat, flat[1:]):
+        if a is not None and b is None:
+            ctx.hit("composed:unlocated-after-located")
+        if a is None and b is not None:
+            ctx.hit("composed:located-after-unlocated")
+    bad: List[Tuple[str, str]] = []
+    try:
+        text = LinenoColumner(atok).error_message(error)
+    except BaseException as e:  # noqa
+        return [("C04:error_message:" + crash_name(e), f"{case_id}: error_message raised {crash_name(e)}")], None
+    bad += [(s, f"{case_id} (error_message): {w}") for s, w in judge_report(text, flat, True)]
+    wire = (atok.text, error_wire_tree(atok, src, error), "ok " + enc_text(text))
+    if not bad:
+        d = ctx.scratch()
+        p = d / "meta_model.py"
+        p.write_bytes(src.encode("utf-8"))
+        try:
+            _, report = run.load_model(model_path=p)
+        except BaseException as e:  # noqa
+            return [("C04:load_model:" + crash_name(e), f"{case_id}: run.load_model raised {crash_name(e)}")], wire
+        if report is None:
+            bad.append(("C04:composed:load_model-accepts", f"{case_id}: run.load_model accepts a model whose {stage} stage returns an error"))
+        else:
+            bad += [(s, f"{case_id} (run.load_model): {w}") for s, w in judge_report(report, flat, True)]
+        if not bad and with_smoke:
+            rc, stderr = run_smoke(ctx, src, False)
+            if isinstance(rc, str):
+                bad.append((f"C04:pipeline:{rc}", f"{case_id}: smoke.execute raised {rc}"))
+            else:
+                bad += [(s, f"{case_id} (smoke): {w}") for s, w in judge_report(stderr, flat, True)]
+    return bad, wire
+
+
 # --------------------------------------------------------------------------- input streams
 
 CLS = ["a", "b", " ", "\t", "\n", "\n", "\r", "\r\n", "\f", "\v", "é", "ü", "😀", "e\u0301", "\ud800", "\u2028", "\x85", "x = 1", "#", "\u3000", "\x1c"]
-MSG = ["m", "Failed to parse", "At line 1", "a\nb", " ", "", "\n", "x\r\ny", "* ", "é😀", "\t\n z", "q\u2028r", "\x0c", "w\n\n  v\n"]
+MSG = ["m", "Failed to parse", "At line 1", "At line 7 and column 9: fake", "a\nb", " ", "", "\n", "x\r\ny", "* ", "é😀", "\t\n z", "q\u2028r", "\x0c", "w\n\n  v\n"]
 
 
 def rand_text(ctx: Ctx, maxn: int = 30) -> str:
@@ -481,6 +782,19 @@ def errmsg_inputs(ctx: Ctx) -> Iterator[Tuple[str, Tree, str]]:
         yield t, (0, "top", [(start, "u", None), (None, "v\n\n w\n", [(start, "deep", None)])]), "enumerated"
     yield "", (0, "m", None), "enumerated"
     yield "", (None, "", None), "enumerated"
+    # located and un-located errors mixed in one tree: EVERY shape up to depth 3 / width 2 and depth 2 / width 3 with every
+    # node located or not (all located nodes at different positions, unique messages); depth 3 / width 3 (55 862 trees) in
+    # full in the thorough tier, every 29th of them (seed independent) in the quick tier
+    for tr in enumerated_trees(3, 2):
+        yield ENUM_TEXT, tr, "enumerated-trees"
+    for tr in enumerated_trees(2, 3):
+        yield ENUM_TEXT, tr, "enumerated-trees"
+    for k, tr in enumerate(enumerated_trees(3, 3)):
+        if ctx.tier == "thorough" or k % 29 == 0:
+            yield ENUM_TEXT, tr, "enumerated-trees"
+    # the same mixtures with messages that span lines / look like a location themselves
+    for tr in enumerated_trees(3, 2):
+        yield ENUM_TEXT, _remessage(tr), "enumerated-trees-multiline"
     # every character that str.splitlines / str.isspace may treat specially, in a nested message
     specials = list(range(0, 0x3100, 1)) if ctx.tier == "thorough" else (
         list(range(0, 0x100)) + list(range(0x1670, 0x1690)) + list(range(0x1ff0, 0x2070)) + list(range(0x2ff0, 0x3010)) + [0xFEFF, 0x180E, 0x200B]
@@ -491,6 +805,16 @@ def errmsg_inputs(ctx: Ctx) -> Iterator[Tuple[str, Tree, str]]:
     for _ in range(ctx.n(2000, 40000)):
         text = rand_text(ctx)
         yield text, rand_tree(ctx, len(text), 3), "random"
+
+
+_REMSG = ["a\nb", "At line 7 and column 9: fake", "w\n\n  v\n", "x\r\ny", "plain", "é\u2028r"]
+
+
+def _remessage(tr: Tree, counter: Optional[List[int]] = None) -> Tree:
+    counter = counter if counter is not None else [0]
+    k = counter[0]
+    counter[0] += 1
+    return (tr[0], f"{k}{_REMSG[k % len(_REMSG)]}", None if tr[2] is None else [_remessage(u, counter) for u in tr[2]])
 
 
 def _tree_from_json(j: Any) -> Tree:
@@ -575,6 +899,11 @@ def _run(ctx: Ctx, with_model: bool) -> None:
         ctx.hit("errmsg:crash" if got.startswith("crash") else "errmsg:ok")
         if tr[2]:
             ctx.hit("errmsg:nested")
+            fl = [a is not None for _, a, _ in flatten_tree(text, tr)]
+            if any(x and not y for x, y in zip(fl, fl[1:])):
+                ctx.hit("errmsg:unlocated-after-located")
+            if any(y and not x for x, y in zip(fl, fl[1:])):
+                ctx.hit("errmsg:located-after-unlocated")
         if k % 1499 == 0:
             ctx.sample({"text": text, "tree": tr, "message": got if got.startswith("crash") else dec_text(got[3:])})
         if emod is not None:
@@ -618,6 +947,18 @@ def _run(ctx: Ctx, with_model: bool) -> None:
             got = impl_errmsg(atok, t, lambda s: by_start[s])
             lines.append(f"errmsg {enc_text(atok.text)} {tree_wire(t)}")
             pend.append((src, t, got))
+            if got.startswith("ok "):
+                src_lines = src.split("\n")
+
+                def flat_real(tr: Tree, depth: int = 0) -> List[Flat]:
+                    out: List[Flat] = [(depth, None if tr[0] is None else allowed_locations(src, src_lines, by_start[tr[0]]), tr[1])]
+                    for u in tr[2] or []:
+                        out += flat_real(u, depth + 1)
+                    return out
+
+                fl = flat_real(t)
+                for sig, what in judge_report(dec_text(got[3:]), fl, all(single_line(m) for _, _, m in fl)):
+                    ctx.fail({"kind": "module-tree", "source": src, "tree": t}, what, sig)
     if with_model:
         outs = ctx.model(lines)
         for (src, t, got), want in zip(pend, outs):
@@ -634,6 +975,24 @@ def _run(ctx: Ctx, with_model: bool) -> None:
                 ctx.fail({"kind": "pipeline", "case": case_id, "variant": variant[0]}, what, sig)
     if not smoke_cases():
         ctx.note("no recorded smoke cases found under dev/test_data/smoke")
+
+    # ---- (e) composed meta-models: located and un-located errors in one report
+    composed = [(c["id"], c["source"]) for c in corpus(ID) if c.get("kind") == "report"] + composed_models()
+    clines: List[str] = []
+    cpend: List[Tuple[str, str, Tree, str]] = []
+    for k, (case_id, src) in enumerate(composed):
+        ctx.count(("report", src), nontrivial=True, stream="report:" + case_id.split("|")[0])
+        bad, wire = judge_composed(ctx, case_id, src, with_smoke=(k % 16 == 0))
+        for sig, what in bad:
+            ctx.fail({"kind": "report", "id": case_id, "source": src}, what, sig)
+        if wire is not None and with_model:
+            clines.append(f"errmsg {enc_text(wire[0])} {tree_wire(wire[1])}")
+            cpend.append((case_id, src, wire[1], wire[2]))
+    if with_model and clines:
+        for (case_id, src, tr, got), want in zip(cpend, ctx.model(clines)):
+            if got != want:
+                ctx.disagree("errmsg-composed", {"kind": "report", "id": case_id, "source": src}, got[:300], want[:300])
+            ctx.traces_validated += 1
 
 
 def judge_errmsg(text: str, tr: Tree, got: str) -> List[Tuple[str, str]]:
@@ -658,6 +1017,10 @@ def judge_errmsg(text: str, tr: Tree, got: str) -> List[Tuple[str, str]]:
             if loc and text[start] == "\n" and loc in ((exp[0] + 1, 0), (exp[0] + 1, 1)):
                 return [("C04:position-of-newline-character", f"offset {start} (a newline) is reported as {msg[:40]!r}, expected {want!r}")]
             return [("C04:prefix", f"offset {start} is reported as {msg[:40]!r}, expected {want!r}")]
+    if max_start(tr) < len(text):
+        # the whole tree: prefixes only for errors with a node, each naming ITS node's position
+        flat = flatten_tree(text, tr)
+        return judge_report(msg, flat, all(single_line(m) for _, _, m in flat))
     return []
 
 
@@ -667,6 +1030,9 @@ def correspond(ctx: Ctx) -> None:
         "(non-trivial = contains a newline); errmsg: enumerated starts/nesting + every special whitespace/line-break "
         "character + random trees; module: hand-grown + recorded meta-models + generated valid modules through the real "
         "asttokens (non-trivial = has positioned nodes); pipeline: (5 recorded + 1 own) rejected meta-models x 7 layout variants; "
+        "errmsg:enumerated-trees: every error tree up to depth 3 / width 2 and depth 2 / width 3 (and every 29th up to depth 3 / width 3) "
+        "with every node located or not; report: composed meta-models with every subset of 4 located x 4 un-located parse defects and "
+        "3 located x 1 un-located intermediate defects through error_message, run.load_model and smoke; "
         "distinct by value"
     )
     _run(ctx, True)
@@ -713,6 +1079,35 @@ def replay(ctx: Ctx, data: Dict[str, Any]) -> Any:
         variant = [v for v in VARIANTS if v[0] == inp["variant"]][0]
         res["oracle"] = judge_pipeline(ctx, inp["case"], base, variant)
         res["impl"] = run_smoke(ctx, variant[1] + base, variant[2])[1]
+    elif kind == "report":
+        bad, wire = judge_composed(ctx, inp.get("id", "replay"), inp["source"], with_smoke=True)
+        res["oracle"] = bad
+        if wire is not None:
+            res["impl"] = dec_text(wire[2][3:])
+            if ctx.driver_ok:
+                m = ctx.model([f"errmsg {enc_text(wire[0])} {tree_wire(wire[1])}"])[0]
+                res["model"] = m if not m.startswith("ok ") else dec_text(m[3:])
+    elif kind == "module-tree":
+        src, tr = inp["source"], _tree_from_json(inp["tree"])
+        atok = mk_atok(src)
+        nodes = [n for n in ast.walk(atok.tree) if hasattr(n, "lineno") and hasattr(n, "col_offset")]
+        by_start = {start_of(atok, src, n): n for n in nodes}
+        got = impl_errmsg(atok, tr, lambda s: by_start[s])
+        res["impl"] = got if got.startswith("crash") else dec_text(got[3:])
+        if got.startswith("ok "):
+            src_lines = src.split("\n")
+
+            def flat_real(t: Tree, depth: int = 0) -> List[Flat]:
+                out: List[Flat] = [(depth, None if t[0] is None else allowed_locations(src, src_lines, by_start[t[0]]), t[1])]
+                for u in t[2] or []:
+                    out += flat_real(u, depth + 1)
+                return out
+
+            fl = flat_real(tr)
+            res["oracle"] = judge_report(dec_text(got[3:]), fl, all(single_line(m) for _, _, m in fl))
+        if ctx.driver_ok:
+            m = ctx.model([f"errmsg {enc_text(atok.text)} {tree_wire(tr)}"])[0]
+            res["model"] = m if not m.startswith("ok ") else dec_text(m[3:])
     else:
         res["error"] = f"unknown replay kind {kind!r}"
     return res
